@@ -595,6 +595,9 @@ class ParserBinary(ParserBase):
         self._parsed_length += parsed_length + mpint_length
 
     def _parse_bytes(self, size):
+        if size < 0:
+            raise InvalidValue(size, type(self), 'size')
+
         if self.unparsed_length < size:
             raise NotEnoughData(bytes_needed=size - self.unparsed_length)
 
